@@ -5,8 +5,11 @@ package mvs
 // not have.
 //
 // A generated universe (zz_verif_mvsgen_test.go) is laid out over SEVERAL repositories: every project lives either
-// at the root of a repository of its own, in a subdirectory of a repository of its own, or in the shared
-// repository; a repository reports the project path of a root-level tag as "" or "." (the real git repository says
+// at the root of a repository of its own, in a subdirectory of a repository of its own, in the shared repository,
+// or NESTED in the tree of another project (a repository that hosts a project at its root and further projects
+// below it; a project below another project's subdirectory); repositories live on the well-known host
+// (github.com/<org>/<repo>, located without dialing anything else) or on other hosts, where the resolver finds the
+// repository by dialing ever shorter prefixes of the project path; a repository reports the project path of a root-level tag as "" or "." (the real git repository says
 // "."; findProjectRepository says "" for pseudo-versions); its projects carry their configuration as dawn.toml or
 // as .dawnconfig, next to other files.  FetchRevision delivers a project the way os.CopyFS does for the real git
 // repository: directory first, then file by file in lexical order, the configuration file in three writes (created
@@ -20,6 +23,7 @@ package mvs
 import (
 	"bufio"
 	"context"
+	"encoding/json"
 	"errors"
 	"fmt"
 	"iter"
@@ -27,6 +31,7 @@ import (
 	"os"
 	"path"
 	"path/filepath"
+	"slices"
 	"sort"
 	"strconv"
 	"strings"
@@ -228,14 +233,40 @@ func (s vcStep) String() string {
 	return fmt.Sprintf("write %d more bytes of %s", len(s.data), s.name)
 }
 
-// steps: the delivery of one project at one revision, in os.CopyFS order.
+// nested: the projects of the repository that live below project p's directory (sorted by path).
+func (r *vcRepo) nested(p *vcProj) []*vcProj {
+	var out []*vcProj
+	for sub, q := range r.bySub {
+		if q != p && (p.sub == "" || strings.HasPrefix(sub, p.sub+"/")) {
+			out = append(out, q)
+		}
+	}
+	sort.Slice(out, func(i, j int) bool { return out[i].sub < out[j].sub })
+	return out
+}
+
+// steps: the delivery of one project at one revision, in os.CopyFS order.  The tree of a project includes the
+// projects nested below it (their files at the same revision), as a checkout of its directory does.
 func (r *vcRepo) steps(p *vcProj, rev int) []vcStep {
 	names := append([]string{r.cfgName}, r.extra...)
+	data := map[string][]byte{}
+	for _, n := range r.extra {
+		data[n] = []byte("# " + n + " of " + p.dir + "\n")
+	}
+	for _, q := range r.nested(p) {
+		rel := strings.TrimPrefix(strings.TrimPrefix(q.sub, p.sub), "/")
+		names = append(names, path.Join(rel, r.cfgName))
+		data[path.Join(rel, r.cfgName)] = r.cfg[q.dir+"|"+strconv.Itoa(rev)]
+		for _, n := range r.extra {
+			names = append(names, path.Join(rel, n))
+			data[path.Join(rel, n)] = []byte("# " + n + " of " + q.dir + "\n")
+		}
+	}
 	sort.Strings(names)
 	out := []vcStep{{kind: "mkdir"}}
 	for _, n := range names {
 		if n != r.cfgName {
-			out = append(out, vcStep{kind: "file", name: n, data: []byte("# " + n + " of " + p.dir + "\n")})
+			out = append(out, vcStep{kind: "file", name: n, data: data[n]})
 			continue
 		}
 		cfg := r.cfg[p.dir+"|"+strconv.Itoa(rev)]
@@ -320,21 +351,36 @@ var vcExtraPool = [][]string{
 	{},
 }
 
+// vcHosts: where the repositories of a universe live.  The first is the well-known host (vcs.IsWellKnown: the
+// repository is the first three path components); for the others findProjectRepository dials the project path
+// and then ever shorter prefixes of it until a repository answers.
+var vcHosts = []string{vcOrg, "git.verif.test/team/infra", "verif.test"}
+
 // vcBuild lays the universe out over repositories.  At least one project is at the root of a repository.
 func vcBuild(rng *rand.Rand, u *vuUniverse, tmp string) (*vcUniverse, error) {
 	vc := &vcUniverse{u: u, projs: map[string]*vcProj{}, repos: map[string]*vcRepo{}, tmp: tmp}
 	forced := rng.Intn(len(u.dirs))
+	host := vcOrg
+	if rng.Intn(3) == 0 {
+		host = vcHosts[1+rng.Intn(len(vcHosts)-1)]
+	}
+	var placed []*vcProj
 	for i, d := range u.dirs {
 		flat := strings.ReplaceAll(d, "/", "-")
 		p := &vcProj{dir: d}
-		switch k := rng.Intn(8); {
-		case k < 4 || i == forced:
-			p.repo, p.sub = vcOrg+"/r-"+flat, ""
-		case k < 6:
-			p.repo, p.sub = vcOrg+"/m-"+flat, []string{"pkg", "tools/dawn"}[rng.Intn(2)]
-		default:
+		switch k := rng.Intn(10); {
+		case k < 3 || i == forced:
+			p.repo, p.sub = host+"/r-"+flat, ""
+		case k < 5:
+			p.repo, p.sub = host+"/m-"+flat, []string{"pkg", "tools/dawn"}[rng.Intn(2)]
+		case k < 7 || len(placed) == 0:
 			p.repo, p.sub = vuRepo, d
+		default:
+			// nested in the tree of an earlier project: its repository, a directory below its own
+			parent := placed[rng.Intn(len(placed))]
+			p.repo, p.sub = parent.repo, path.Join(parent.sub, []string{"n-" + flat, "tools/n-" + flat}[rng.Intn(2)])
 		}
+		placed = append(placed, p)
 		vc.projs[d] = p
 		r, ok := vc.repos[p.repo]
 		if !ok {
@@ -376,7 +422,13 @@ func vcBuild(rng *rand.Rand, u *vuUniverse, tmp string) (*vcUniverse, error) {
 func (vc *vcUniverse) describe() map[string]any {
 	layout := map[string]any{}
 	for d, p := range vc.projs {
-		layout[d] = map[string]string{"repository": p.repo, "path_in_repository": p.sub}
+		nestedIn, depth := "", -1
+		for _, q := range vc.projs {
+			if q != p && q.repo == p.repo && (q.sub == "" || strings.HasPrefix(p.sub, q.sub+"/")) && len(q.sub) > depth {
+				nestedIn, depth = path.Join(q.repo, q.sub), len(q.sub)
+			}
+		}
+		layout[d] = map[string]string{"repository": p.repo, "path_in_repository": p.sub, "nested_in_project": nestedIn}
 	}
 	repos := map[string]any{}
 	for a, r := range vc.repos {
@@ -498,6 +550,137 @@ func vcDirDiff(a, b string) string {
 	return walk("")
 }
 
+// vcUntag moves num/den of the requirements between the universe's projects to pseudo-versions (untagged commits).
+func vcUntag(rng *rand.Rand, u *vuUniverse, num, den int) {
+	done := map[*mvsProject]bool{}
+	for _, d := range u.dirs {
+		for _, s := range u.sums[d] {
+			if done[s] {
+				continue
+			}
+			done[s] = true
+			for i := range s.Requirements {
+				if rng.Intn(den) >= num {
+					continue
+				}
+				if pv, ok := c11Pseudo(rng, u, s.Requirements[i].Path); ok {
+					s.Requirements[i].Version = pv
+				}
+			}
+		}
+	}
+	u.build(nil)
+}
+
+// vcReachable: the project versions reachable from the root requirements (generated tables, universe paths), in
+// breadth-first order, the root itself excluded.
+func vcReachable(u *vuUniverse, rootReqs []module.Version) []module.Version {
+	seen := map[module.Version]bool{{}: true}
+	queue := []module.Version{{}}
+	var out []module.Version
+	for len(queue) > 0 {
+		m := queue[0]
+		queue = queue[1:]
+		reqs, _ := u.refRequired(rootReqs, m)
+		for _, r := range reqs {
+			if !seen[r] {
+				seen[r] = true
+				queue = append(queue, r)
+				out = append(out, r)
+			}
+		}
+	}
+	return out
+}
+
+// want: the reference build list of a root requirement list (universe paths), in the layout's paths.
+func (vc *vcUniverse) want(rootReqs []module.Version) c10Result {
+	ref, ok := vc.u.refBuildList(rootReqs)
+	if !ok {
+		return c10Result{St: "err", M: [][2]string{}}
+	}
+	rm := map[string]string{}
+	for p, v := range ref {
+		rm[vc.rename(module.Version{Path: p, Version: v}).Path] = v
+	}
+	return c10Result{St: "ok", M: vuSortedMap(rm)}
+}
+
+// entryDiff: the direct oracle on the contents of the cache.  The directory <project path>@<version> must hold the
+// tree of THAT project at the revision of THAT version (generated tables): its own configuration file and its own
+// other files.  "" when it does; entries whose version the tables do not know are skipped.
+func (vc *vcUniverse) entryDiff(cache, entry string) string {
+	at := strings.LastIndex(entry, "@")
+	if at < 0 {
+		return ""
+	}
+	pp, ver := filepath.ToSlash(entry[:at]), entry[at+1:]
+	var p *vcProj
+	for _, q := range vc.projs {
+		if path.Join(q.repo, q.sub) == pp {
+			p = q
+		}
+	}
+	if p == nil {
+		return "no project of the universe has the path " + pp
+	}
+	rev := 0
+	if module.IsPseudoVersion(ver) {
+		id, err := module.PseudoVersionRev(ver)
+		if err != nil {
+			return ""
+		}
+		rev, _ = strconv.Atoi(id)
+	} else {
+		for _, t := range vc.u.tags {
+			if t.dir == p.dir && t.ver == ver {
+				rev = t.rev
+			}
+		}
+	}
+	if rev < 1 || rev > vc.u.nrevs {
+		return ""
+	}
+	r := vc.repos[p.repo]
+	for _, s := range r.steps(p, rev) {
+		if s.kind != "file" && s.kind != "create" {
+			continue
+		}
+		want := s.data
+		if s.kind == "create" {
+			want = r.cfg[p.dir+"|"+strconv.Itoa(rev)]
+		}
+		got, err := os.ReadFile(filepath.Join(cache, entry, filepath.FromSlash(s.name)))
+		if err != nil {
+			return "the tree of " + pp + " at revision " + strconv.Itoa(rev) + " has a file " + s.name + ", the cache entry has not"
+		}
+		if string(got) != string(want) {
+			return fmt.Sprintf("%s is not the %s of %s at revision %d (the entry holds %q)", s.name, s.name, pp, rev, vcHead(got))
+		}
+	}
+	return ""
+}
+
+// vcNodes: the single-requirement roots a resolver answered (in that order) before position upto (-1: all).
+func vcNodes(vc *vcUniverse, reach []module.Version, order []int, upto int) [][2]string {
+	out := [][2]string{}
+	for _, i := range order {
+		if i == upto {
+			break
+		}
+		m := vc.rename(reach[i])
+		out = append(out, [2]string{m.Path, m.Version})
+	}
+	return out
+}
+
+func vcHead(b []byte) string {
+	if len(b) > 120 {
+		b = b[:120]
+	}
+	return string(b)
+}
+
 type vcTarget struct {
 	loc, key string
 	step     int
@@ -532,11 +715,16 @@ func TestVerifC10Cache(t *testing.T) {
 		return d
 	}
 
-	caseID, nscen, nruns := 0, 0, 0
+	exportDir := os.Getenv("VERIF_C10_EXPORT")
+	maxExport := vuEnvInt("VERIF_C10_EXPORT_MAX", 1<<30)
+	caseID, nscen, nruns, ncontent, nexport := 0, 0, 0, 0, 0
 	for ui := 0; ui < nuniv; ui++ {
 		u := vuGen(rng, ui, false)
-		if rng.Intn(3) == 0 {
-			c11UntagUniverse(rng, u) // some requirements on untagged commits (pseudo-versions)
+		switch rng.Intn(3) { // requirements on untagged commits (pseudo-versions): none, a fifth, half of them
+		case 0:
+			vcUntag(rng, u, 1, 5)
+		case 1:
+			vcUntag(rng, u, 1, 2)
 		}
 		vc, err := vcBuild(rng, u, base)
 		if err != nil {
@@ -546,18 +734,11 @@ func TestVerifC10Cache(t *testing.T) {
 		for ri := 0; ri < nroots; ri++ {
 			ucfg := vuGenRoot(rng, u, true)
 			delete(ucfg, "self")
-			if rng.Intn(6) == 0 {
+			if rng.Intn(4) == 0 {
 				c11UntagRoot(rng, u, ucfg)
 			}
-			ref, refOK := u.refBuildList(vuRootReqs(&project.Config{Requirements: ucfg}))
-			want := c10Result{St: "err", M: [][2]string{}}
-			if refOK {
-				rm := map[string]string{}
-				for p, v := range ref {
-					rm[vc.rename(module.Version{Path: p, Version: v}).Path] = v
-				}
-				want = c10Result{St: "ok", M: vuSortedMap(rm)}
-			}
+			urootReqs := vuRootReqs(&project.Config{Requirements: ucfg})
+			want := vc.want(urootReqs)
 			root := &project.Config{Requirements: map[string]project.RequirementConfig{}}
 			for n, r := range ucfg {
 				m := vc.rename(module.Version{Path: r.Path, Version: r.Version})
@@ -602,6 +783,71 @@ func TestVerifC10Cache(t *testing.T) {
 			nruns++
 			if !vcSame(disk, want) {
 				oracle("layout:warm-disk-cache-vs-reference", nil, disk, diskMsg)
+			}
+
+			// the contents of the cache the fault-free run left, against the generated tables
+			content := func(when, dir string) {
+				for _, e := range vcEntries(dir, "") {
+					ncontent++
+					if d := vc.entryDiff(dir, e); d != "" {
+						out.emit(map[string]any{"t": "ORACLE", "name": "content:cache-entry-is-not-the-tree-of-its-project-version:" + when,
+							"case": caseID, "u": u.id, "root": vuSortedCfg(root.Requirements), "got": c10Result{St: "entry", M: [][2]string{{e, d}}},
+							"want": want, "error_text": ""})
+						return
+					}
+				}
+			}
+			content("cold-run", coldDir)
+			if exportDir != "" && nexport < maxExport && want.St == "ok" && vcSame(cold, want) {
+				nexport++
+				ed := filepath.Join(exportDir, "case"+strconv.Itoa(caseID))
+				if err := vcCopyTree(coldDir, filepath.Join(ed, "cache")); err != nil {
+					t.Fatal(err)
+				}
+				b, _ := json.Marshal(map[string]any{"case": caseID, "u": u.id, "root": vuSortedCfg(root.Requirements), "want": want.M})
+				if err := os.WriteFile(filepath.Join(ed, "case.json"), b, 0o600); err != nil {
+					t.Fatal(err)
+				}
+			}
+
+			// lookup orders: a resolver that answered other root requirement sets before -- every reachable project
+			// version as the only requirement of a root, in a drawn order and in the reverse of it (so of any two
+			// projects each is looked up first once) -- then the root itself; and a fresh resolver on the cache it left
+			reach := vcReachable(u, urootReqs)
+			order := rng.Perm(len(reach))
+			for pass := 0; pass < 2; pass++ {
+				if pass == 1 {
+					slices.Reverse(order)
+				}
+				dir := newDir()
+				res := NewResolver(dir, vc, nil)
+				for _, i := range order {
+					m := vc.rename(reach[i])
+					single := &project.Config{Requirements: map[string]project.RequirementConfig{"only": {Path: m.Path, Version: m.Version}}}
+					got, msg := vcRun(single, res)
+					nruns++
+					if w := vc.want([]module.Version{reach[i]}); !vcSame(got, w) {
+						out.emit(map[string]any{"t": "ORACLE", "name": "order:root-with-a-single-requirement-on-a-resolver-that-answered-others-before",
+							"case": caseID, "u": u.id, "root": vuSortedCfg(single.Requirements), "got": got, "want": w, "error_text": msg,
+							"before": vcNodes(vc, reach, order, i)})
+						break
+					}
+				}
+				got, msg := vcRun(root, res)
+				nruns++
+				if !vcSame(got, want) {
+					rec := map[string]any{"t": "ORACLE", "name": "order:resolver-that-answered-other-roots-before", "case": caseID, "u": u.id,
+						"root": vuSortedCfg(root.Requirements), "got": got, "want": want, "error_text": msg, "before": vcNodes(vc, reach, order, -1)}
+					out.emit(rec)
+				}
+				content("resolver-that-answered-other-roots-before", dir)
+				fresh, freshMsg := vcRun(root, NewResolver(dir, vc, nil))
+				nruns++
+				if !vcSame(fresh, want) {
+					out.emit(map[string]any{"t": "ORACLE", "name": "order:fresh-resolver-on-the-cache-left-by-other-roots", "case": caseID, "u": u.id,
+						"root": vuSortedCfg(root.Requirements), "got": fresh, "want": want, "error_text": freshMsg, "before": vcNodes(vc, reach, order, -1)})
+				}
+				os.RemoveAll(dir)
 			}
 
 			var keys []string
@@ -749,5 +995,6 @@ func TestVerifC10Cache(t *testing.T) {
 				"cold": cold, "downloads": len(plan0.fetched), "faults": len(targets), "fired": fired, "not_fired": notFired, "entries_inspected": ninv})
 		}
 	}
-	out.emit(map[string]any{"t": "END", "cases": caseID, "scenarios": nscen, "runs": nruns})
+	out.emit(map[string]any{"t": "END", "cases": caseID, "scenarios": nscen, "runs": nruns, "entries_checked_against_tables": ncontent,
+		"exported": nexport})
 }
